@@ -170,7 +170,7 @@ def _while(cond,ctx=None):
     
     lineno = inspect.currentframe().f_back.f_lineno
     if len(ctx.stack)!=0 and isinstance(ctx.stack[-1],WhileContext) and \
-       ctx.stack[-1].ctx is ctx and ctx.stack[-1].lineno == lineno:
+       ctx.stack[-1].ctx is ctx and getattr(ctx.stack[-1], "lineno", None) == lineno:
         ctx.stack[-1]._while(cond)
     else:
         ctx.stack.append(WhileContext(cond,ctx))
